@@ -804,6 +804,126 @@ pub fn handshake_wire(cx: &mut Ctx) {
 	}
 }
 
+/// capability words with bits OUTSIDE the defined flags (a newer peer): both handshake messages must still
+/// be read (unknown bits dropped, known ones kept), the acceptor must answer, the version is min(local, v)
+pub fn handshake_caps(cx: &mut Ctx) {
+	let ua_hex = hex(grin_p2p::msg::user_agent().as_bytes());
+	let known: u32 = Capabilities::all().bits();
+	let mut words: Vec<u32> = vec![known, 0, 0xFFFF_FFFF, 0x8000_0000, !known];
+	for b in 0..32 {
+		if known & (1 << b) == 0 {
+			words.push(1 << b);
+			if cx.thorough {
+				words.push((1 << b) | known);
+			}
+		}
+	}
+	for _ in 0..(if cx.thorough { 16 } else { 4 }) {
+		words.push(cx.rng.next() as u32);
+	}
+	let local = ProtocolVersion::local().value();
+	let vers: Vec<u32> = vec![1, 2, 3, local - 1, local, local + 1, local + 2, local + 3, u32::MAX];
+	let mut n = 0usize;
+	for (wi, &word) in words.iter().enumerate() {
+		let vs: Vec<u32> = if cx.thorough || wi < 5 { vers.clone() } else { vec![vers[wi % vers.len()], local + 1] };
+		for &v in &vs {
+			n += 1;
+			let g = hash32(&mut cx.rng);
+			let (caps, td) = (Capabilities::from_bits_truncate(cx.rng.next() as u32), cx.rng.below(1 << 50));
+			// --- the acceptor reads a Hand whose capability word is `word`
+			let adv = PeerAddr(format!("10.9.8.7:{}", 6000 + (n % 1000)).parse().unwrap());
+			let hand = Hand { version: ProtocolVersion(v), capabilities: Capabilities::default(), nonce: cx.rng.next(), genesis: g, total_difficulty: Difficulty::from_num(cx.rng.below(1 << 50)), sender_addr: adv, receiver_addr: gen_addr(&mut cx.rng), user_agent: "newer/9.9".to_string() };
+			let mut stream = wire(&Msg::new(Type::Hand, hand, ProtocolVersion(1)).unwrap());
+			stream[15..19].copy_from_slice(&word.to_be_bytes());
+			let hs = Handshake::new(g, P2PConfig::default());
+			let (mut cl, mut sv_sock) = hs_pair();
+			let peer_of_server = sv_sock.peer_addr().unwrap();
+			let st2 = stream.clone();
+			let t = std::thread::spawn(move || {
+				let _ = cl.write_all(&st2);
+				let f = read_frame(&mut cl);
+				let _ = cl.shutdown(Shutdown::Both);
+				f
+			});
+			let r = hs.accept(caps, Difficulty::from_num(td), &mut sv_sock);
+			let _ = sv_sock.shutdown(Shutdown::Both);
+			let wrote = t.join().ok().flatten();
+			let res = match &r {
+				Ok(i) => info_text(i, true),
+				Err(e) => format!("err {}", err_name(e)),
+			};
+			let ok = match &r {
+				Ok(i) => i.version.value() == v.min(local) && i.capabilities.bits() == word & known && wrote.is_some(),
+				Err(_) => false,
+			};
+			if !ok {
+				cx.fails += 1;
+				cx.out.raw(&format!(
+					"#ORACLE-FAIL C19 Handshake::accept of a Hand announcing version {} with capability word {:#010x} (defined flags {:#x}): {} ; Shake written: {} - expected acceptance, version {}, capabilities {}",
+					v, word, known, res, wrote.is_some(), v.min(local), word & known
+				));
+			}
+			cx.stat("hsw: accept of a Hand with an arbitrary capability word");
+			cx.out.line(
+				&format!("codec hsw accepts {} {} {} {} - {}:{} 0 [] {}", hex(g.as_bytes()), caps.bits(), td, ua_hex, ip_hex(peer_of_server.ip()), peer_of_server.port(), hex(&stream)),
+				&format!("{}|{}|[]", res, wrote.as_ref().map(|f| hex(f)).unwrap_or_else(|| "-".to_string())),
+			);
+			// --- the initiator reads a Shake whose capability word is `word`
+			let listener = TcpListener::bind("127.0.0.1:0").unwrap();
+			let la = listener.local_addr().unwrap();
+			let shake = Shake { version: ProtocolVersion(v), capabilities: Capabilities::default(), genesis: g, total_difficulty: Difficulty::from_num(cx.rng.below(1 << 50)), user_agent: "newer/9.9".to_string() };
+			let mut sstream = wire(&Msg::new(Type::Shake, shake, ProtocolVersion(1)).unwrap());
+			sstream[15..19].copy_from_slice(&word.to_be_bytes());
+			let st2 = sstream.clone();
+			let t = std::thread::spawn(move || {
+				if let Ok((mut s, _)) = listener.accept() {
+					let _ = read_frame(&mut s);
+					let _ = s.write_all(&st2);
+					let _ = s.shutdown(Shutdown::Write);
+					let mut sink = vec![];
+					let _ = s.read_to_end(&mut sink);
+				}
+			});
+			let hs = Handshake::new(g, P2PConfig::default());
+			let mut c = TcpStream::connect(la).unwrap();
+			let r = hs.initiate(Capabilities::default(), Difficulty::from_num(1), PeerAddr("127.0.0.1:3414".parse().unwrap()), &mut c);
+			let _ = c.shutdown(Shutdown::Both);
+			let _ = t.join();
+			let res = match &r {
+				Ok(i) => info_text(i, false),
+				Err(e) => format!("err {}", err_name(e)),
+			};
+			let ok = match &r {
+				Ok(i) => i.version.value() == v.min(local) && i.capabilities.bits() == word & known,
+				Err(_) => false,
+			};
+			if !ok {
+				cx.fails += 1;
+				cx.out.raw(&format!(
+					"#ORACLE-FAIL C19 Handshake::initiate reading a Shake announcing version {} with capability word {:#010x} (defined flags {:#x}): {} - expected acceptance, version {}, capabilities {}",
+					v, word, known, res, v.min(local), word & known
+				));
+			}
+			cx.stat("hsw: initiate reading a Shake with an arbitrary capability word");
+			cx.out.line(&format!("codec hsw initiates {} - {}:{} {}", hex(g.as_bytes()), ip_hex(la.ip()), la.port(), hex(&sstream)), &res);
+		}
+	}
+	// the same word in a message AFTER the handshake: GetPeerAddrs through the real Codec
+	for &word in words.iter().take(if cx.thorough { words.len() } else { 12 }) {
+		let mut w = getpeers_frame(1000, 0);
+		w[11..15].copy_from_slice(&word.to_be_bytes());
+		w.extend_from_slice(&ping_frame(1000, 5));
+		let r = run_codec(1000, &[w.clone()], &[0]);
+		let want = Exp::Body(Type::GetPeerAddrs as u8, hex(&(word & known).to_be_bytes()));
+		if r.got.first() != Some(&want) || r.got.len() != 2 {
+			cx.fails += 1;
+			cx.out.raw(&format!("#ORACLE-FAIL C19 GetPeerAddrs with capability word {:#010x}: read {:?} end {}", word, r.got, r.end));
+		}
+		cx.stat("GetPeerAddrs with an arbitrary capability word through the codec");
+		emit_run(cx, 1000, &[w], &r, false);
+	}
+}
+
 /// the frame the acceptor answers with, or `None` when it hangs up without a word
 fn read_frame_or_eof(s: &mut TcpStream) -> Option<Vec<u8>> {
 	read_frame(s)
